@@ -4,17 +4,53 @@
 //! (`generate_embedded`, one function per location: hydro IR -> DFIR -> `as_code`).
 //!
 //! usage: compile_dump_hydro --list | <flow name>... [--full] [--reps N]
-//! Per flow one line: `H <name> ok ir=<len>:<h128> embedded=<len>:<h128> inproc=<ok|DIFF:..>`
+//! Per flow one line: `H <name> ok ir=<len>:<h128> preview=.. embedded=.. inproc=<ok|DIFF:..>`
 //! (`--full` adds `@@@BEGIN <name> <artefact>` .. `@@@END <name>` sections).
 
 use hydro_lang::compile::builder::FlowBuilder;
 use hydro_lang::location::Location;
 use hydro_lang::prelude::*;
 
-type Flow = fn() -> (String, String);
+use hydro_lang::compile::deploy::DeployFlow;
+use hydro_lang::compile::embedded::EmbeddedDeploy;
 
-fn finish<'a>(ir: String, code: syn::File) -> (String, String) {
-    (ir, prettyplease::unparse(&code))
+/// ir (Debug of the Hydro IR), preview (per location: DFIR mermaid, surface syntax, graph JSON,
+/// generated tokens -- `preview_compile`, no networking), embedded (`generate_embedded`, only for
+/// flows whose channels are named; empty otherwise).
+type Arts = [String; 3];
+type Flow = fn() -> Arts;
+const NAMES: [&str; 3] = ["ir", "preview", "embedded"];
+
+fn finish<'a>(ir: String, mut d: DeployFlow<'a, EmbeddedDeploy>, embeddable: bool) -> Arts {
+    use std::fmt::Write as _;
+    let mut preview = String::new();
+    {
+        let compiled = d.preview_compile();
+        for (key, res) in compiled.all_dfir() {
+            let _ = writeln!(preview, "=== location {key} ===");
+            match res {
+                Ok(g) => {
+                    let _ = writeln!(preview, "--- mermaid\n{}", g.to_mermaid(&dfir_lang::graph::WriteConfig::default()));
+                    let _ = writeln!(preview, "--- surface\n{}", g.surface_syntax_string());
+                    let _ = writeln!(preview, "--- json\n{}", serde_json::to_string(g).unwrap_or_else(|e| format!("<serde error {e}>")));
+                    let mut diags = dfir_lang::diagnostic::Diagnostics::new();
+                    match g.as_code(&quote::quote! { __root_dfir_rs }, true, quote::quote!(), &mut diags) {
+                        Ok(code) => {
+                            let _ = writeln!(preview, "--- code\n{code}");
+                        }
+                        Err(_) => {
+                            let _ = writeln!(preview, "--- code\n<as_code reported errors>");
+                        }
+                    }
+                }
+                Err(e) => {
+                    let _ = writeln!(preview, "partition error: {}", e.diagnostic.message);
+                }
+            }
+        }
+    }
+    let embedded = if embeddable { prettyplease::unparse(&d.generate_embedded("hydro_test")) } else { String::new() };
+    [ir, preview, embedded]
 }
 
 fn ir_of(built: &hydro_lang::compile::built::BuiltFlow<'_>) -> String {
@@ -25,45 +61,45 @@ fn ir_of(built: &hydro_lang::compile::built::BuiltFlow<'_>) -> String {
     s
 }
 
-fn capitalize() -> (String, String) {
+fn capitalize() -> Arts {
     let mut flow = FlowBuilder::new();
     let process = flow.process::<()>();
     hydro_test::local::capitalize::capitalize(process.embedded_input("input"));
     let built = flow.finalize();
     let ir = ir_of(&built);
-    finish(ir, built.with_process(&process, "capitalize").generate_embedded("hydro_test"))
+    finish(ir, built.with_process(&process, "capitalize"), true)
 }
 
-fn prefix_names() -> (String, String) {
+fn prefix_names() -> Arts {
     let mut flow = FlowBuilder::new();
     let process = flow.process::<()>();
     hydro_test::local::singleton_input::prefix_names(process.embedded_input("names"), process.embedded_singleton_input("prefix"));
     let built = flow.finalize();
     let ir = ir_of(&built);
-    finish(ir, built.with_process(&process, "prefix_names").generate_embedded("hydro_test"))
+    finish(ir, built.with_process(&process, "prefix_names"), true)
 }
 
-fn echo_network() -> (String, String) {
+fn echo_network() -> Arts {
     let mut flow = FlowBuilder::new();
     let sender = flow.process::<hydro_test::embedded::echo_network::Sender>();
     let receiver = flow.process::<hydro_test::embedded::echo_network::Receiver>();
     hydro_test::embedded::echo_network::echo_network(&receiver, sender.embedded_input("input")).embedded_output("output");
     let built = flow.finalize();
     let ir = ir_of(&built);
-    finish(ir, built.with_process(&sender, "echo_sender").with_process(&receiver, "echo_receiver").generate_embedded("hydro_test"))
+    finish(ir, built.with_process(&sender, "echo_sender").with_process(&receiver, "echo_receiver"), true)
 }
 
-fn echo_network_embedded() -> (String, String) {
+fn echo_network_embedded() -> Arts {
     let mut flow = FlowBuilder::new();
     let sender = flow.process::<hydro_test::embedded::echo_network_embedded::Sender>();
     let receiver = flow.process::<hydro_test::embedded::echo_network_embedded::Receiver>();
     hydro_test::embedded::echo_network_embedded::echo_network_embedded(&receiver, sender.embedded_input("input")).embedded_output("output");
     let built = flow.finalize();
     let ir = ir_of(&built);
-    finish(ir, built.with_process(&sender, "echo_sender").with_process(&receiver, "echo_receiver").generate_embedded("hydro_test"))
+    finish(ir, built.with_process(&sender, "echo_sender").with_process(&receiver, "echo_receiver"), true)
 }
 
-fn o2m_broadcast() -> (String, String) {
+fn o2m_broadcast() -> Arts {
     let mut flow = FlowBuilder::new();
     let process = flow.process::<hydro_test::embedded::o2m_broadcast::Src>();
     let cluster = flow.cluster::<hydro_test::embedded::o2m_broadcast::Dst>();
@@ -72,10 +108,10 @@ fn o2m_broadcast() -> (String, String) {
         .embedded_output("output");
     let built = flow.finalize();
     let ir = ir_of(&built);
-    finish(ir, built.with_process(&process, "o2m_sender").with_cluster(&cluster, "o2m_receiver").generate_embedded("hydro_test"))
+    finish(ir, built.with_process(&process, "o2m_sender").with_cluster(&cluster, "o2m_receiver"), true)
 }
 
-fn m2o_send() -> (String, String) {
+fn m2o_send() -> Arts {
     let mut flow = FlowBuilder::new();
     let cluster = flow.cluster::<hydro_test::embedded::m2o_send::Src>();
     let process = flow.process::<hydro_test::embedded::m2o_send::Dst>();
@@ -84,10 +120,10 @@ fn m2o_send() -> (String, String) {
         .embedded_output("output");
     let built = flow.finalize();
     let ir = ir_of(&built);
-    finish(ir, built.with_cluster(&cluster, "m2o_sender").with_process(&process, "m2o_receiver").generate_embedded("hydro_test"))
+    finish(ir, built.with_cluster(&cluster, "m2o_sender").with_process(&process, "m2o_receiver"), true)
 }
 
-fn m2m_broadcast() -> (String, String) {
+fn m2m_broadcast() -> Arts {
     let mut flow = FlowBuilder::new();
     let src = flow.cluster::<hydro_test::embedded::m2m_broadcast::Src>();
     let dst = flow.cluster::<hydro_test::embedded::m2m_broadcast::Dst>();
@@ -96,58 +132,58 @@ fn m2m_broadcast() -> (String, String) {
         .embedded_output("output");
     let built = flow.finalize();
     let ir = ir_of(&built);
-    finish(ir, built.with_cluster(&src, "m2m_sender").with_cluster(&dst, "m2m_receiver").generate_embedded("hydro_test"))
+    finish(ir, built.with_cluster(&src, "m2m_sender").with_cluster(&dst, "m2m_receiver"), true)
 }
 
-fn simple_cluster() -> (String, String) {
+fn simple_cluster() -> Arts {
     let mut flow = FlowBuilder::new();
     let (process, cluster) = hydro_test::cluster::simple_cluster::simple_cluster(&mut flow);
     let built = flow.finalize();
     let ir = ir_of(&built);
-    finish(ir, built.with_process(&process, "sc_process").with_cluster(&cluster, "sc_cluster").generate_embedded("hydro_test"))
+    finish(ir, built.with_process(&process, "sc_process").with_cluster(&cluster, "sc_cluster"), false)
 }
 
-fn decouple_cluster() -> (String, String) {
+fn decouple_cluster() -> Arts {
     let mut flow = FlowBuilder::new();
     let (c1, c2) = hydro_test::cluster::simple_cluster::decouple_cluster(&mut flow);
     let built = flow.finalize();
     let ir = ir_of(&built);
-    finish(ir, built.with_cluster(&c1, "dc_one").with_cluster(&c2, "dc_two").generate_embedded("hydro_test"))
+    finish(ir, built.with_cluster(&c1, "dc_one").with_cluster(&c2, "dc_two"), false)
 }
 
-fn decouple_process() -> (String, String) {
+fn decouple_process() -> Arts {
     let mut flow = FlowBuilder::new();
     let (p1, p2) = hydro_test::cluster::simple_cluster::decouple_process(&mut flow);
     let built = flow.finalize();
     let ir = ir_of(&built);
-    finish(ir, built.with_process(&p1, "dp_one").with_process(&p2, "dp_two").generate_embedded("hydro_test"))
+    finish(ir, built.with_process(&p1, "dp_one").with_process(&p2, "dp_two"), false)
 }
 
-fn many_to_many() -> (String, String) {
+fn many_to_many() -> Arts {
     let mut flow = FlowBuilder::new();
     let cluster = hydro_test::cluster::many_to_many::many_to_many(&mut flow);
     let built = flow.finalize();
     let ir = ir_of(&built);
-    finish(ir, built.with_cluster(&cluster, "m2m").generate_embedded("hydro_test"))
+    finish(ir, built.with_cluster(&cluster, "m2m"), true)
 }
 
-fn map_reduce() -> (String, String) {
+fn map_reduce() -> Arts {
     let mut flow = FlowBuilder::new();
     let (process, cluster) = hydro_test::cluster::map_reduce::map_reduce(&mut flow);
     let built = flow.finalize();
     let ir = ir_of(&built);
-    finish(ir, built.with_process(&process, "mr_leader").with_cluster(&cluster, "mr_worker").generate_embedded("hydro_test"))
+    finish(ir, built.with_process(&process, "mr_leader").with_cluster(&cluster, "mr_worker"), false)
 }
 
-fn compute_pi() -> (String, String) {
+fn compute_pi() -> Arts {
     let mut flow = FlowBuilder::new();
     let (cluster, process) = hydro_test::cluster::compute_pi::compute_pi(&mut flow, 8192);
     let built = flow.finalize();
     let ir = ir_of(&built);
-    finish(ir, built.with_cluster(&cluster, "pi_worker").with_process(&process, "pi_leader").generate_embedded("hydro_test"))
+    finish(ir, built.with_cluster(&cluster, "pi_worker").with_process(&process, "pi_leader"), false)
 }
 
-fn graph_reachability() -> (String, String) {
+fn graph_reachability() -> Arts {
     let mut flow = FlowBuilder::new();
     let process = flow.process::<()>();
     hydro_test::local::graph_reachability::graph_reachability(process.embedded_input("roots"), process.embedded_input("edges"))
@@ -155,19 +191,19 @@ fn graph_reachability() -> (String, String) {
         .embedded_output("reached");
     let built = flow.finalize();
     let ir = ir_of(&built);
-    finish(ir, built.with_process(&process, "reachability").generate_embedded("hydro_test"))
+    finish(ir, built.with_process(&process, "reachability"), true)
 }
 
-fn count_elems() -> (String, String) {
+fn count_elems() -> Arts {
     let mut flow = FlowBuilder::new();
     let process = flow.process::<()>();
     hydro_test::local::count_elems::count_elems::<u32>(process.embedded_input("input")).embedded_output("count");
     let built = flow.finalize();
     let ir = ir_of(&built);
-    finish(ir, built.with_process(&process, "count_elems").generate_embedded("hydro_test"))
+    finish(ir, built.with_process(&process, "count_elems"), true)
 }
 
-fn chat_app(replay: bool) -> (String, String) {
+fn chat_app(replay: bool) -> Arts {
     let mut flow = FlowBuilder::new();
     let process = flow.process::<()>();
     hydro_test::local::chat_app::chat_app(process.embedded_input("users"), process.embedded_input("messages"), replay, nondet!(/** test */))
@@ -175,16 +211,16 @@ fn chat_app(replay: bool) -> (String, String) {
         .embedded_output("out");
     let built = flow.finalize();
     let ir = ir_of(&built);
-    finish(ir, built.with_process(&process, "chat_app").generate_embedded("hydro_test"))
+    finish(ir, built.with_process(&process, "chat_app"), true)
 }
-fn chat_app_replay() -> (String, String) {
+fn chat_app_replay() -> Arts {
     chat_app(true)
 }
-fn chat_app_noreplay() -> (String, String) {
+fn chat_app_noreplay() -> Arts {
     chat_app(false)
 }
 
-fn two_pc() -> (String, String) {
+fn two_pc() -> Arts {
     use hydro_std::bench_client::pretty_print_bench_results;
     let mut flow = FlowBuilder::new();
     let coordinator = flow.process();
@@ -210,12 +246,12 @@ fn two_pc() -> (String, String) {
             .with_process(&coordinator, "tpc_coordinator")
             .with_cluster(&participants, "tpc_participant")
             .with_cluster(&clients, "tpc_client")
-            .with_process(&aggregator, "tpc_aggregator")
-            .generate_embedded("hydro_test"),
+            .with_process(&aggregator, "tpc_aggregator"),
+        false,
     )
 }
 
-fn paxos() -> (String, String) {
+fn paxos() -> Arts {
     use hydro_std::bench_client::pretty_print_bench_results;
     use hydro_test::cluster::paxos::{CorePaxos, PaxosConfig};
     let mut flow = FlowBuilder::new();
@@ -250,8 +286,8 @@ fn paxos() -> (String, String) {
             .with_cluster(&acceptors, "px_acceptor")
             .with_cluster(&clients, "px_client")
             .with_process(&aggregator, "px_aggregator")
-            .with_cluster(&replicas, "px_replica")
-            .generate_embedded("hydro_test"),
+            .with_cluster(&replicas, "px_replica"),
+        false,
     )
 }
 
@@ -302,7 +338,7 @@ fn shim_reset() {
     }
 }
 
-fn on_fresh_thread(f: Flow) -> Option<(String, String)> {
+fn on_fresh_thread(f: Flow) -> Option<Arts> {
     std::thread::Builder::new().stack_size(256 << 20).spawn(move || std::panic::catch_unwind(f).ok()).ok()?.join().ok()?
 }
 
@@ -334,24 +370,19 @@ fn main() {
         shim_reset();
         let first = on_fresh_thread(*f);
         runs += 1;
-        let Some((ir, code)) = first else {
-            println!("H {name} err ir=0:- embedded=0:- inproc=ok");
+        let Some(arts) = first else {
+            println!("H {name} err ir=0:- preview=0:- embedded=0:- inproc=ok");
             continue;
         };
         let mut inproc = "ok".to_string();
-        let mut other = None;
+        let mut other: Option<Arts> = None;
         for r in 0..reps {
             runs += 1;
             match on_fresh_thread(*f) {
-                Some((ir2, code2)) => {
-                    if ir2 != ir {
-                        inproc = format!("DIFF:ir:{r}");
-                        other = Some((ir2, code2));
-                        break;
-                    }
-                    if code2 != code {
-                        inproc = format!("DIFF:embedded:{r}");
-                        other = Some((ir2, code2));
+                Some(a2) => {
+                    if let Some(k) = (0..3).find(|&k| a2[k] != arts[k]) {
+                        inproc = format!("DIFF:{}:{r}", NAMES[k]);
+                        other = Some(a2);
                         break;
                     }
                 }
@@ -361,13 +392,19 @@ fn main() {
                 }
             }
         }
-        println!("H {name} ok ir={}:{} embedded={}:{} inproc={inproc}", ir.len(), h128(&ir), code.len(), h128(&code));
+        print!("H {name} ok");
+        for k in 0..3 {
+            print!(" {}={}:{}", NAMES[k], arts[k].len(), h128(&arts[k]));
+        }
+        println!(" inproc={inproc}");
         if full {
-            println!("@@@BEGIN {name} ir\n{ir}\n@@@END {name}");
-            println!("@@@BEGIN {name} embedded\n{code}\n@@@END {name}");
-            if let Some((i2, c2)) = other {
-                println!("@@@BEGIN {name} inproc-other-ir\n{i2}\n@@@END {name}");
-                println!("@@@BEGIN {name} inproc-other-embedded\n{c2}\n@@@END {name}");
+            for k in 0..3 {
+                println!("@@@BEGIN {name} {}\n{}\n@@@END {name}", NAMES[k], arts[k]);
+            }
+            if let Some(o) = other {
+                for k in 0..3 {
+                    println!("@@@BEGIN {name} inproc-other-{}\n{}\n@@@END {name}", NAMES[k], o[k]);
+                }
             }
         }
     }
